@@ -15,6 +15,7 @@ import Sb.Corr.RthOps
 import Sb.Corr.LoadOps
 import Sb.Corr.BuilderOps
 import Sb.Corr.UtilOps
+import Sb.Corr.ConvOps
 
 open Sb.Corr
 
@@ -47,6 +48,7 @@ def dispatch (op : String) (args impl : List String) : Verdict :=
   | "rgbw" => opRgbw args impl
   | "rgbw_row" => opRgbwRow args impl
   | "bufops" => opBufops args impl
+  | "rthconv" => opRthConv args impl
   | "traj" => opTraj args impl
   | "yawq" => opYawq args impl
   | "facc" => opFacc args impl
